@@ -834,6 +834,9 @@ class Engine:
         self.obligations = []
         self.notes = []
         self._tabled = set()
+        self._memo = {}       # (op, term id) -> (result var, term): round/trunc/floor are functions of their argument
+        self.round_log = {}   # id of the Int result of round(x) -> the real term x (pre-rounding value)
+        self.trunc_log = {}
         self._margin_obls = []
 
     def add_side(self, c):
@@ -1025,7 +1028,11 @@ class Engine:
         x = lift(x)
         if x.is_int:
             return x
+        key = ("floor", x.t.get_id())
+        if key in self._memo:
+            return SNum(self._memo[key][0])
         n = self.fresh("floor", "int")
+        self._memo[key] = (n, x.t)
         self.add_side(z3.And(z3.ToReal(n) <= x.t, x.t < z3.ToReal(n) + 1))
         return SNum(n)
 
@@ -1036,8 +1043,13 @@ class Engine:
         inner = _strip_toreal(x.t)
         if inner is not None:
             return SNum(inner)
+        key = ("trunc", x.t.get_id())
+        if key in self._memo:
+            return SNum(self._memo[key][0])
         n = self.fresh("trunc", "int")
+        self._memo[key] = (n, x.t)
         nr = z3.ToReal(n)
+        self.trunc_log[n.get_id()] = x.t
         self.add_side(z3.If(x.t >= 0, z3.And(nr <= x.t, x.t < nr + 1), z3.And(nr >= x.t, x.t > nr - 1)))
         return SNum(n)
 
@@ -1056,9 +1068,14 @@ class Engine:
         inner = _strip_toreal(x.t)
         if inner is not None:
             return SNum(inner)
+        key = ("round", x.t.get_id())
+        if key in self._memo:
+            return SNum(self._memo[key][0])
         n = self.fresh("round", "int")
+        self._memo[key] = (n, x.t)
         nr = z3.ToReal(n)
         half = rv(Fraction(1, 2))
+        self.round_log[n.get_id()] = x.t
         if self.margin_round is not None:
             m = rv(self.margin_round)
             # pre-rounding margin: the value is within m < 1/2 of the integer; recorded as an
@@ -1361,6 +1378,18 @@ class Engine:
             else:
                 results.append(pr)
         return results
+
+
+def pre_round(eng, n):
+    """The pre-rounding real term of an SNum produced by round()/int() on this path, else None."""
+    if not _isinstance(n, SNum):
+        return None
+    i = n.t.get_id()
+    if i in eng.round_log:
+        return SNum(eng.round_log[i])
+    if i in eng.trunc_log:
+        return SNum(eng.trunc_log[i])
+    return None
 
 
 def _strip_toreal(t):
